@@ -54,6 +54,16 @@
 (*                  outer atoms `col c' then mean the NAME n<c>, which the   *)
 (*                  compiler resolves against the columns of the subquery's  *)
 (*                  table object (name -> position in the subquery's rows)   *)
+(*   via            how the statement is handed to the connection:          *)
+(*                  "cursor"  cur = conn.cursor(); cur.execute(..) -- the    *)
+(*                  thread made the cursor itself; "conn"  the shortcut      *)
+(*                  cur = conn.execute(..) of the connection, which returns  *)
+(*                  the cursor holding the results                           *)
+(*   fetch          <<>>: the results are taken as soon as execute() returns;*)
+(*                  otherwise the DELIVERY of the results in steps, the      *)
+(*                  thread descheduled after execute() has returned and      *)
+(*                  between the steps: one step reads the description and    *)
+(*                  fetches n rows (fetchone / fetchmany(n); 0: fetchall)    *)
 (*   wpause         the execution can be descheduled when the compiler      *)
 (*                  asks the table for its wildcard columns                 *)
 (*   ppause         ... after every lookup in the parameters container      *)
@@ -86,10 +96,17 @@
 (*                                 for a FROM-subquery has its own name ->   *)
 (*                                 position map                              *)
 (*               "process-wide"    one map shared by all of them (non-vacuity)*)
+(* ResultScope   "per execute call"  conforming: every execute() handed to   *)
+(*                                 the connection gets a cursor of its own,  *)
+(*                                 which holds description, rows, position   *)
+(*               "per connection"  the connection keeps ONE cursor behind    *)
+(*                                 its execute() shortcut: the results of    *)
+(*                                 every statement executed through the      *)
+(*                                 connection live there (non-vacuity)       *)
 (***************************************************************************)
 EXTENDS Integers, Sequences, FiniteSets, TLC
 
-CONSTANTS Threads, CompilerScope, ColumnMemo, ParserScope, ScanMemo, OperandScope, SubqueryColumns
+CONSTANTS Threads, CompilerScope, ColumnMemo, ParserScope, ScanMemo, OperandScope, SubqueryColumns, ResultScope
 
 PerExec == "per execution"
 PerConn == "per connection"
@@ -103,6 +120,8 @@ OpsPerCall == "per call"
 OpsPerFunction == "process-wide, per function"
 ColsPerTable == "per table object"
 ColsShared == "process-wide"
+ResPerCall == "per execute call"
+ResPerConn == "per connection"
 
 VARIABLES
     job,        \* [Threads -> job]
@@ -122,11 +141,14 @@ VARIABLES
     opnd,       \* [Threads \cup {0} -> [Ops -> <<Int, Int>>]]  the evaluated operands of a function call; the entry a call uses is OKey(t)
     names,      \* [Threads \cup {0} -> [1..NCols -> 0..NCols]]  columns of a FROM-subquery's table: name -> position (0: no such
                 \*    name); the entry a statement uses is NKey(t)
-    slot        \* [Threads -> [1..NCols -> 0..NCols]]  what the names of the thread's statement were resolved to (0: not yet)
+    slot,       \* [Threads -> [1..NCols -> 0..NCols]]  what the names of the thread's statement were resolved to (0: not yet)
+    store,      \* [Threads -> [owner, rows, pos]]  the results a cursor holds: whose statement, its rows, how many have been
+                \*    fetched; the entry (cursor) a thread's execute() writes and its fetches read is SKey(t)
+    recv        \* [Threads -> [desc, rows]]  what the thread has RECEIVED: the description read at every delivery step, the rows fetched
 
 aux == <<parser, got, tmemo>>
-xaux == <<opnd, names, slot>>
-vars == <<job, exe, scratch, bound, ctx, pc, cur, out, memo, parser, got, tmemo, opnd, names, slot>>
+xaux == <<opnd, names, slot, store, recv>>
+vars == <<job, exe, scratch, bound, ctx, pc, cur, out, memo, parser, got, tmemo, opnd, names, slot, store, recv>>
 
 NCols == 3
 Ops == {"add", "first", "cmp"}
@@ -137,7 +159,7 @@ Pc(ph, i) == PcS(ph, i, 0)
 ErrRow == <<-1>>            \* the statement failed (only a broken mechanism gets there)
 ErrVal == -9                \* an accessor reads past the end of the row (only a broken mechanism gets there)
 Job0 == [conn |-> 0, ledger |-> <<>>, tab |-> "e", star |-> FALSE, targets |-> <<>>, where |-> <<>>, lo |-> 0, hi |-> 0,
-         lit |-> TRUE, wpause |-> FALSE, ppause |-> FALSE, ty |-> 0, parse |-> 0, sub |-> <<>>]
+         lit |-> TRUE, wpause |-> FALSE, ppause |-> FALSE, ty |-> 0, parse |-> 0, sub |-> <<>>, via |-> "cursor", fetch |-> <<>>]
 (* the table a compiler has selected: a table of the connection, or the table object of a FROM-subquery over it *)
 TableOf(J) == [tab |-> J.tab, sub |-> J.sub]
 BaseOf(J) == [tab |-> J.tab, sub |-> <<>>]
@@ -201,6 +223,8 @@ Parser0 == [owner |-> 0, pos |-> 0]
 TMemo0 == [open |-> FALSE, n |-> 0]
 Opnd0 == [o \in Ops |-> <<0, 0>>]
 NoNames == [c \in 1..NCols |-> 0]
+Store0 == [owner |-> 0, rows |-> <<>>, pos |-> 0]
+Recv0 == [desc |-> <<>>, rows |-> <<>>]
 InitWith(jobs) ==
     /\ job = jobs
     /\ exe = [t \in Threads |-> Exe(jobs[t])]
@@ -217,6 +241,8 @@ InitWith(jobs) ==
     /\ opnd = [k \in Threads \cup {0} |-> Opnd0]
     /\ names = [k \in Threads \cup {0} |-> NoNames]
     /\ slot = [t \in Threads |-> NoNames]
+    /\ store = [t \in Threads |-> Store0]
+    /\ recv = [t \in Threads |-> Recv0]
 
 (* the compiler (scratch state) an execution uses *)
 Key(t) ==
@@ -230,6 +256,12 @@ TKey(t) == Least({u \in Threads : job[u].conn = job[t].conn /\ job[u].tab = job[
 (* the list a function call evaluates its operands into; the name -> position map of a FROM-subquery's table object *)
 OKey(t) == IF OperandScope = OpsPerCall THEN t ELSE 0
 NKey(t) == IF SubqueryColumns = ColsPerTable THEN t ELSE 0
+(* the cursor that holds the results of an execution: the thread's own (it made the cursor, or the connection made one
+   for this execute() call); under ResultScope = ResPerConn the one cursor the connection keeps for its shortcut *)
+SKey(t) ==
+    IF ResultScope = ResPerConn /\ job[t].via = "conn"
+    THEN Least({u \in Threads : job[u].conn = job[t].conn /\ job[u].via = "conn"})
+    ELSE t
 
 -----------------------------------------------------------------------------
 (* compilation *)
@@ -288,7 +320,7 @@ SubTable(t) ==
                                                  ELSE IF SubqueryColumns = ColsPerTable THEN 0 ELSE names[NKey(t)][c]]]
             /\ Go(t) /\ UNCHANGED out
        ELSE Fail(t) /\ UNCHANGED <<scratch, names>>
-    /\ UNCHANGED <<job, exe, bound, ctx, cur, memo, aux, opnd, slot>>
+    /\ UNCHANGED <<job, exe, bound, ctx, cur, memo, aux, opnd, slot, store, recv>>
 (* a name (or the wildcard) is resolved against whatever table the compiler has selected now; the statement is
    right only if that is the table of its own FROM clause.  A column of a table of the connection is its own
    accessor; a name of a FROM-subquery is bound to the position the table object's map gives for it NOW *)
@@ -304,7 +336,7 @@ Resolve(t) ==
           THEN IF \A c \in 1..NCols : reg[c] = PosIn(J.sub, c) THEN Go(t) /\ UNCHANGED <<out, slot>> ELSE Fail(t) /\ UNCHANGED slot
           ELSE IF reg[a.i] = 0 THEN Fail(t) /\ UNCHANGED slot
           ELSE Go(t) /\ UNCHANGED out /\ slot' = [slot EXCEPT ![t][a.i] = reg[a.i]]
-    /\ UNCHANGED <<job, exe, scratch, bound, ctx, cur, memo, aux, opnd, names>>
+    /\ UNCHANGED <<job, exe, scratch, bound, ctx, cur, memo, aux, opnd, names, store, recv>>
 Bind(t) ==
     /\ Compiling(t, {"L", "H"})
     /\ bound' = IF CAtom(t).k = "L"
@@ -355,10 +387,33 @@ NextRow(t) ==
     /\ pc' = [pc EXCEPT ![t] = Norm(t, "where", 1)]
     /\ cur' = [cur EXCEPT ![t] = <<>>]
     /\ UNCHANGED <<job, exe, scratch, bound, out, memo, parser, got, xaux>>
+(* the scan is over: execute() puts the results -- description, rows, position 0 -- into the cursor and returns it.
+   A thread that takes the results at once (fetch = <<>>) has them; otherwise the delivery steps follow *)
+DescOf(J) == [n \in 1..Len(RunTargets(J)) |-> RunTargets(J)[n].k]      \* the description: one column per target
+DescIn(st) == IF st.owner \in Threads THEN DescOf(job[st.owner]) ELSE <<>>
 Finish(t) ==
     /\ pc[t].ph = "next" /\ ctx[t].rowid = Available(t)
-    /\ pc' = [pc EXCEPT ![t] = Pc("done", 0)]
-    /\ UNCHANGED <<job, exe, scratch, bound, ctx, cur, out, memo, aux, xaux>>
+    /\ LET st == [owner |-> t, rows |-> out[t], pos |-> 0] IN
+         IF job[t].fetch = <<>>
+         THEN /\ store' = [store EXCEPT ![SKey(t)] = [st EXCEPT !.pos = Len(out[t])]]
+              /\ recv' = [recv EXCEPT ![t] = [desc |-> <<DescIn(st)>>, rows |-> out[t]]]
+              /\ pc' = [pc EXCEPT ![t] = Pc("done", 0)]
+         ELSE /\ store' = [store EXCEPT ![SKey(t)] = st]
+              /\ pc' = [pc EXCEPT ![t] = Pc("fetch", 1)]
+              /\ UNCHANGED recv
+    /\ UNCHANGED <<job, exe, scratch, bound, ctx, cur, out, memo, aux, opnd, names, slot>>
+(* one delivery step: the thread reads the description of the cursor it was given and fetches the next n rows (0: all
+   that are left) from it -- whatever that cursor holds NOW *)
+Fetch(t) ==
+    /\ pc[t].ph = "fetch"
+    /\ LET st == store[SKey(t)]
+           n == job[t].fetch[pc[t].i]
+           rest == SubSeq(st.rows, st.pos + 1, Len(st.rows))
+           take == IF n = 0 \/ n >= Len(rest) THEN rest ELSE SubSeq(rest, 1, n)
+       IN /\ recv' = [recv EXCEPT ![t] = [desc |-> Append(recv[t].desc, DescIn(st)), rows |-> recv[t].rows \o take]]
+          /\ store' = [store EXCEPT ![SKey(t)].pos = st.pos + Len(take)]
+    /\ pc' = [pc EXCEPT ![t] = IF pc[t].i = Len(job[t].fetch) THEN Pc("done", 0) ELSE Pc("fetch", pc[t].i + 1)]
+    /\ UNCHANGED <<job, exe, scratch, bound, ctx, cur, out, memo, aux, opnd, names, slot>>
 
 (* one evaluation of column / name c for the current row.  Own: what the statement's own text means by c.  Cell: what
    the accessor the compiler bound for c reads -- the column itself for a table of the connection; for a FROM-subquery
@@ -404,7 +459,7 @@ Arg1(t) ==
        IN opnd' = [opnd EXCEPT ![OKey(t)][CallOp(t)][1] = v]
     /\ IF Atom(t).k = "fn" THEN Remember(t, Atom(t).a) ELSE UNCHANGED memo
     /\ SubStep(t, 1)
-    /\ UNCHANGED <<job, exe, scratch, bound, ctx, cur, out, aux, names, slot>>
+    /\ UNCHANGED <<job, exe, scratch, bound, ctx, cur, out, aux, names, slot, store, recv>>
 ArgYield(t) ==
     /\ IsCall(t) /\ pc[t].s = 1
     /\ SubStep(t, 2)
@@ -414,7 +469,7 @@ Arg2(t) ==
     /\ LET c == IF Atom(t).k = "fn" THEN Atom(t).b ELSE 1
        IN opnd' = [opnd EXCEPT ![OKey(t)][CallOp(t)][2] = ColVal(t, c)] /\ Remember(t, c)
     /\ SubStep(t, 3)
-    /\ UNCHANGED <<job, exe, scratch, bound, ctx, cur, out, aux, names, slot>>
+    /\ UNCHANGED <<job, exe, scratch, bound, ctx, cur, out, aux, names, slot, store, recv>>
 Apply(t) ==
     /\ IsCall(t) /\ pc[t].s = 3
     /\ LET a == Atom(t)
@@ -446,11 +501,16 @@ Step(t) ==
     \/ Begin(t) \/ From(t) \/ Inner(t) \/ SubTable(t) \/ Resolve(t) \/ Bind(t) \/ CompilePause(t) \/ Build(t)
     \/ NextRow(t) \/ Finish(t) \/ Test(t) \/ Column(t) \/ Yield(t) \/ Const(t) \/ EmitRow(t)
     \/ Arg1(t) \/ ArgYield(t) \/ Arg2(t) \/ Apply(t)
+    \/ Fetch(t)
 Next == \E t \in Threads : Step(t)
 Done(t) == pc[t].ph = "done"
 AllDone == \A t \in Threads : Done(t)
 (* where a deterministic scheduler hands over: a pause point (compile time or run time) *)
-YieldStep(t) == Compiling(t, {"P"}) \/ (InRow(t) /\ Atom(t).k = "rp") \/ (IsCall(t) /\ pc[t].s = 1)
+(* ... and, when the results are delivered in steps, after execute() has returned and between the delivery steps *)
+YieldStep(t) ==
+    \/ Compiling(t, {"P"}) \/ (InRow(t) /\ Atom(t).k = "rp") \/ (IsCall(t) /\ pc[t].s = 1)
+    \/ (pc[t].ph = "next" /\ ctx[t].rowid = Available(t) /\ job[t].fetch # <<>>)
+    \/ (pc[t].ph = "fetch" /\ pc[t].i < Len(job[t].fetch))
 
 -----------------------------------------------------------------------------
 (* THE PROPERTY, declaratively: what the statement returns when it runs alone -- a function of its own text, its
@@ -469,10 +529,19 @@ SerialRows(J) ==
     IN [n \in 1..Len(sel) |-> Proj(J, sel[n])]
 
 IsPrefix(s, t) == Len(s) <= Len(t) /\ s = SubSeq(t, 1, Len(s))
+(* what the thread that executes J alone RECEIVES: all the rows when it takes the results at once or one of its delivery
+   steps fetches everything that is left; otherwise as many rows as its steps ask for *)
+RECURSIVE SumSeq(_)
+SumSeq(s) == IF s = <<>> THEN 0 ELSE Head(s) + SumSeq(Tail(s))
+DeliveredRows(J) ==
+    LET all == SerialRows(J)
+    IN IF J.fetch = <<>> \/ (\E i \in 1..Len(J.fetch) : J.fetch[i] = 0) \/ SumSeq(J.fetch) >= Len(all) THEN all
+       ELSE SubSeq(all, 1, SumSeq(J.fetch))
 
 TypeOK ==
     \A t \in Threads :
-        /\ pc[t].ph \in {"compile", "next", "where", "target", "emit", "done"}
+        /\ pc[t].ph \in {"compile", "next", "where", "target", "emit", "fetch", "done"}
+        /\ pc[t].ph = "fetch" => pc[t].i \in 1..Len(job[t].fetch)
         /\ ctx[t].rowid \in 0..Len(exe[t].rows)
         /\ pc[t].ph = "compile" => pc[t].i \in 1..Len(exe[t].plan)
         /\ pc[t].s \in 0..3 /\ (pc[t].s # 0 => IsCall(t))
@@ -509,12 +578,24 @@ OwnNames ==
     \A t \in Threads : \A c \in 1..NCols : slot[t][c] # 0 =>
         IF HasSub(job[t]) THEN slot[t][c] = PosIn(job[t].sub, c) ELSE slot[t][c] = c
 
+(* C20 at the caller: what a thread RECEIVES from the cursor its execute() gave it -- the description at every
+   delivery step, the rows of all the steps together -- is the description and the rows of its own statement run
+   alone; when the thread is done, all the rows its delivery steps ask for *)
+OwnResults ==
+    \A t \in Threads :
+        LET r == recv[t]
+            f == job[t].fetch
+        IN /\ IsPrefix(r.rows, SerialRows(job[t]))
+           /\ \A i \in 1..Len(r.desc) : r.desc[i] = DescOf(job[t])
+           /\ (Done(t) /\ job[t] # Job0) => (r.rows = DeliveredRows(job[t]) /\ Len(r.desc) = IF f = <<>> THEN 1 ELSE Len(f))
+
 (* a step of one thread changes nothing that belongs to another thread; no shared variable is written *)
 NonInterference ==
     [][\A u \in Threads : pc'[u] = pc[u] =>
           /\ scratch'[u] = scratch[u] /\ bound'[u] = bound[u] /\ ctx'[u] = ctx[u]
           /\ cur'[u] = cur[u] /\ out'[u] = out[u] /\ parser'[u] = parser[u] /\ got'[u] = got[u]
-          /\ opnd'[u] = opnd[u] /\ names'[u] = names[u] /\ slot'[u] = slot[u]]_vars
+          /\ opnd'[u] = opnd[u] /\ names'[u] = names[u] /\ slot'[u] = slot[u]
+          /\ store'[u] = store[u] /\ recv'[u] = recv[u]]_vars
 NoSharedState ==
     [][/\ ColumnMemo = NoMemo => memo' = memo
        /\ ScanMemo = NoScanMemo => tmemo' = tmemo
